@@ -268,7 +268,7 @@ theorem wire_ok {fx : Bool} {s s' : St} {τ : Nat} {b : Bool} {t : Rat} (h : wir
           exact ⟨tk, x, rest, r, htk, hch, hr, hck, h.symm⟩
         · cases h
 
-theorem step_close_ok {fx : Bool} {s s' : St} {τ : Nat} (h : step fx s (.close τ) = .ok s') :
+theorem step_close_ok {fx : Bool} {s s' : St} {τ : Nat} {exc : Bool} (h : step fx s (.close τ exc) = .ok s') :
     ∃ tk c rest rc, s.tasks τ = some tk ∧ tk.depth ≠ 0 ∧ tk.chain = c :: rest ∧ s.ctxs c = some rc ∧
       ((rest = [] ∧ s' = { s with ctxs := upd s.ctxs c { rc with closed := true },
                                   tasks := upd s.tasks τ ⟨rest, tk.depth - 1⟩ }) ∨
@@ -331,7 +331,7 @@ theorem step_ext {fx : Bool} {s s' : St} {e : CEv} (h : step fx s e = .ok s') : 
     · subst hxy; rw [hx] at hy; cases hy
       exact ⟨_, upd_same _ _ _, by simp, by simp, by simp⟩
     · exact ⟨r, by simp [upd_other _ _ _ _ hxy, hx], rfl, rfl, rfl⟩
-  | close τ =>
+  | close τ exc =>
     obtain ⟨tk, c, rest, rc, _, _, _, hc, hcase⟩ := step_close_ok h
     rcases hcase with ⟨_, rfl⟩ | ⟨p, rest', rp, _, hp, rfl⟩
     · by_cases hxc : x = c
@@ -383,7 +383,7 @@ theorem step_ctxs_inv {fx : Bool} {s s' : St} {e : CEv} (h : step fx s e = .ok s
       exact Or.inl ⟨ry, hy, by simp, by simp, by simp, by simp⟩
     · simp only [upd_other _ _ _ _ hxy] at hx
       exact Or.inl ⟨r', hx, rfl, rfl, rfl, id⟩
-  | close τ =>
+  | close τ exc =>
     obtain ⟨tk, c, rest, rc, _, _, _, hc, hcase⟩ := step_close_ok h
     rcases hcase with ⟨_, rfl⟩ | ⟨p, rest', rp, _, hp, rfl⟩
     · by_cases hxc : x = c
@@ -532,7 +532,7 @@ theorem wf_step {fx : Bool} {s s' : St} {e : CEv} (hw : WF s) (h : step fx s e =
       rcases hinv x r hx with ⟨r0, hr0, _⟩ | ⟨_, τ', tk', he, _, _⟩
       · exact hw.names x r0 hr0
       · cases he
-  | close τ =>
+  | close τ exc =>
     obtain ⟨tk, c, rest, rc, htk, _, hch, hc, hcase⟩ := step_close_ok h
     have hnames : s'.names = s.names := by
       rcases hcase with ⟨_, rfl⟩ | ⟨p, rest', rp, _, hp, rfl⟩ <;> rfl
@@ -701,7 +701,7 @@ theorem exact_step {fx : Bool} {s s' : St} {e : CEv} (hi : ExactInv s) (h : step
         simpa using h1
       · simp only [directTimes_append, hch, List.head?_cons, hne, Bool.and_false]
         simpa using h2
-  | close τ =>
+  | close τ exc =>
     obtain ⟨tk, c, rest, rc, htk, _, hch, hc, hcase⟩ := step_close_ok h
     rcases hcase with ⟨_, rfl⟩ | ⟨p, rest', rp, hrest, hp, rfl⟩
     · by_cases hxc : x = c
@@ -828,7 +828,7 @@ theorem sep_step {fx : Bool} {P : Nat → Bool} {s s1 : St} {e : CEv}
   | wireEnd τ t =>
     obtain ⟨tk, y, rest, ry, htk, hch, hy, _, rfl⟩ := wire_ok (b := false) h
     exact keep τ' tk' ht x hx
-  | close τ =>
+  | close τ exc =>
     obtain ⟨tk, c, rest, rc, htk, _, hch, hc, hcase⟩ := step_close_ok h
     have htasks : s1.tasks = upd s.tasks τ ⟨rest, tk.depth - 1⟩ := by
       rcases hcase with ⟨_, rfl⟩ | ⟨p, rest', rp, _, hp, rfl⟩ <;> rfl
@@ -897,7 +897,7 @@ theorem sim_step_out {fx : Bool} {P : Nat → Bool} {s s' s1 : St} {e : CEv} (hs
       · subst hx; simp [hs.ctx_out hy hp0, Option.filter, hp0]
       · simp only [upd_other _ _ _ _ hx]; exact hs.ctxs x
     · simp [List.filter_append, hs.log, hP]
-  | close τ =>
+  | close τ exc =>
     obtain ⟨tk, c, rest, rc, htk, _, hch, hc, hcase⟩ := step_close_ok h
     simp only [CEv.task] at hP
     obtain ⟨r0, hr0, hp0⟩ := hs.sep τ tk htk c (by rw [hch]; exact List.mem_cons_self)
@@ -1028,7 +1028,7 @@ theorem sim_step_in {fx : Bool} {P : Nat → Bool} {s s' s1 : St} {e : CEv} (hs 
       · subst hx; simp [Option.filter, hp0]
       · simp only [upd_other _ _ _ _ hx]; exact hs.ctxs x
     · simp [List.filter_append, hs.log, hP]
-  | close τ =>
+  | close τ exc =>
     obtain ⟨tk, c, rest, rc, htk, hd, hch, hc, hcase⟩ := step_close_ok h
     simp only [CEv.task] at hP
     obtain ⟨r0, hr0, hp0⟩ := hs.sep τ tk htk c (by rw [hch]; exact List.mem_cons_self)
@@ -1038,7 +1038,7 @@ theorem sim_step_in {fx : Bool} {P : Nat → Bool} {s s' s1 : St} {e : CEv} (hs 
     have hc' := hs.ctx_in hc hp0
     rcases hcase with ⟨hrest, rfl⟩ | ⟨p, rest', rp, hrest, hp, rfl⟩
     · subst hrest
-      have hstep : step fx s' (.close τ) =
+      have hstep : step fx s' (.close τ exc) =
           .ok { s' with ctxs := upd s'.ctxs c { rc with closed := true },
                         tasks := upd s'.tasks τ ⟨[], tk.depth - 1⟩ } := by
         simp [step, hτ', hch, hc', hd]
@@ -1056,7 +1056,7 @@ theorem sim_step_in {fx : Bool} {P : Nat → Bool} {s s' s1 : St} {e : CEv} (hs 
       rw [hp] at hr1; cases hr1
       rw [hP] at hp1
       have hp' := hs.ctx_in hp hp1
-      have hstep : step fx s' (.close τ) =
+      have hstep : step fx s' (.close τ exc) =
           .ok { s' with
                 ctxs := upd (upd s'.ctxs c { rc with closed := true }) p
                           (setStop fx (setStart fx rp rc.getStart) rc.getStop),
@@ -1523,7 +1523,7 @@ theorem getStart_setStart_some {r : Rec} (v : PyVal) {w : PyVal} (h : r.start = 
     (setStart false r v).getStart = r.getStart := by
   simp [setStart, h, Rec.getStart]
 
-theorem seq_step_close {s s' : St} {τ : Nat} (hi : SeqInv s) (h : step false s (.close τ) = .ok s')
+theorem seq_step_close {s s' : St} {τ : Nat} {exc : Bool} (hi : SeqInv s) (h : step false s (.close τ exc) = .ok s')
     (hec : s'.emptyClose = false) : SeqInv s' := by
   have hwf := wf_step hi.wf h
   obtain ⟨tk, c, rest, rc, htk, _, hch, hc, hcase⟩ := step_close_ok h
@@ -1703,7 +1703,7 @@ theorem emptyClose_mono_step {fx : Bool} {s s' : St} {e : CEv} (h : step fx s e 
   | open_ τ c => obtain ⟨_, _, _, rfl⟩ := step_open_ok h; exact hf
   | wireStart τ t => obtain ⟨_, _, _, _, _, _, _, _, rfl⟩ := wire_ok (b := true) h; exact hf
   | wireEnd τ t => obtain ⟨_, _, _, _, _, _, _, _, rfl⟩ := wire_ok (b := false) h; exact hf
-  | close τ =>
+  | close τ exc =>
     obtain ⟨tk, c, rest, rc, _, _, _, _, hcase⟩ := step_close_ok h
     rcases hcase with ⟨_, rfl⟩ | ⟨p, rest', rp, _, _, rfl⟩
     · exact hf
@@ -1727,7 +1727,7 @@ theorem seq_step {s s' : St} {e : CEv} (hi : SeqInv s) (h : step false s e = .ok
   | open_ τ c => exact seq_step_open hi h
   | wireStart τ t => exact seq_step_wire hi (wf_step hi.wf h) (b := true) h
   | wireEnd τ t => exact seq_step_wire hi (wf_step hi.wf h) (b := false) h
-  | close τ => exact seq_step_close hi h hec
+  | close τ exc => exact seq_step_close hi h hec
 
 theorem seq_runFrom {evs : List CEv} {s s' : St} (hi : SeqInv s) (h : runFrom false s evs = .ok s')
     (hns : ∀ e ∈ evs, e.isSpawn = false) (hec : s'.emptyClose = false) : SeqInv s' := by
@@ -1987,7 +1987,7 @@ theorem step_improves {s s' : St} {e : CEv} (h : step true s e = .ok s') : Impro
       intro b m hm
       exact (setVal_opt false b r (some t)).1 m hm
     · exact ⟨r, by simp [upd_other _ _ _ _ hxy, hx], improves_same_rec⟩
-  | close τ =>
+  | close τ exc =>
     obtain ⟨tk, c, rest, rc, _, _, _, hc, hcase⟩ := step_close_ok h
     rcases hcase with ⟨_, rfl⟩ | ⟨p, rest', rp, _, hp, rfl⟩
     · by_cases hxc : x = c
@@ -2065,7 +2065,7 @@ theorem late_mono_step {fx : Bool} {s s' : St} {e : CEv} (h : step fx s e = .ok 
   | wireEnd τ t =>
     obtain ⟨_, _, _, _, _, _, _, _, rfl⟩ := wire_ok (b := false) h
     simp only [Bool.or_eq_false_iff] at hf; exact hf.1
-  | close τ =>
+  | close τ exc =>
     obtain ⟨tk, c, rest, rc, _, _, _, _, hcase⟩ := step_close_ok h
     rcases hcase with ⟨_, rfl⟩ | ⟨p, rest', rp, _, _, rfl⟩
     · exact hf
@@ -2151,8 +2151,8 @@ theorem pinv_step_open {s s' : St} {τ c : Nat} (hi : PInv s) (hwf : WF s') (hex
     simp only [upd_other _ _ _ _ hy_ne] at hry
     exact himp.acc (hi.prop e he y hyc ry p hry hcl hpar (acc_of_eq (s := s) (upd_other _ _ _ _ hy_ne) hacc))
 
-theorem pinv_step_close {s s' : St} {τ : Nat} (hi : PInv s) (hwf : WF s') (hext : Ext s s')
-    (himp : Improves s s') (h : step true s (.close τ) = .ok s') (hl : s'.late = false) : PInv s' := by
+theorem pinv_step_close {s s' : St} {τ : Nat} {exc : Bool} (hi : PInv s) (hwf : WF s') (hext : Ext s s')
+    (himp : Improves s s') (h : step true s (.close τ exc) = .ok s') (hl : s'.late = false) : PInv s' := by
   obtain ⟨tk, c, rest, rc, htk, _, hch, hc, hcase⟩ := step_close_ok h
   obtain ⟨rc0, hrc0, hanc⟩ := hi.wf.taskHead τ tk c rest htk hch
   rw [hc] at hrc0; cases hrc0
@@ -2264,7 +2264,7 @@ theorem pinv_step {s s' : St} {e : CEv} (hi : PInv s) (h : step true s e = .ok s
   | open_ τ c => exact pinv_step_open hi hwf hext himp h
   | wireStart τ t => exact pinv_step_wire hi hwf hext himp (b := true) h hl
   | wireEnd τ t => exact pinv_step_wire hi hwf hext himp (b := false) h hl
-  | close τ => exact pinv_step_close hi hwf hext himp h hl
+  | close τ exc => exact pinv_step_close hi hwf hext himp h hl
 
 theorem pinv_runFrom {evs : List CEv} {s s' : St} (hi : PInv s) (h : runFrom true s evs = .ok s')
     (hl : s'.late = false) : PInv s' := by
